@@ -2039,3 +2039,16 @@ PROPS["C06"]["rule"] += (" Serialising side, every width (op ikey, harness/src/k
     "prints it back with its own digit loop: every key field must be those digits in quotes (to_value: unquoted), every value field those digits; to_value of a "
     "128-bit integer outside [i64::MIN, u64::MAX] may refuse without arbitrary_precision (op ival has the exact rule). Verdict: `C06 integer key <ty> <value> "
     "serialises (<route>) as ..., expected \"<digits>\"`. Non-trivial: more than one character.")
+PROPS["C14"]["configs"] = dict(quick=PROPS["C14"]["configs"]["quick"] + ["fr"], thorough=PROPS["C14"]["configs"]["thorough"] + ["fr"])
+PROPS["C14"]["rule"] += (" Long-number shapes around the 64-bit significand overflow (harness/src/c14num.rs, configurations d / fr / ap - not rv, ud; tags ovf-core / "
+    "ovf-var / ovf-straddle / ovf-rand): k = 0..25 leading fractional zeros x 19 / 20 / 21 / 25 / 40 / 800 significant digits (quick: the 800-digit literals with one "
+    "rotating prefix per k, under float_roundtrip for k = 1 and 20 only - the exact model needs ~0.2 s per such line) x ten 19-digit prefixes (1844674407370955159, ...160, ...161 twice, ...162, ...163, ...170, 9999999999999999999, 1000000000000000000, "
+    "2718281828459045235) with a 20th digit rotating through 5 6 0 9 1 - u64::MAX / 10 = 1844674407370955161 and the next digit > 5 decide where "
+    "parse_decimal_overflow takes over -, as 0.<zeros><digits> (core), with a non-zero integer part / one of seven exponent suffixes (none, e5, E-7, e+30, e-320, "
+    "E400, e-2147483647) / a minus sign / inside [x], [1, x ,2], {\"k\":x} (one rotating variation per core literal; quick: every second), with the digits straddling "
+    "the decimal point (quick: a third of the lengths up to 21), and 250 (thorough 20000) random combinations with prefixes 1844674407370955000..399; each "
+    "document into Value and IgnoredAny from str / slice / reader (ops pv / pi, machine model) and into typed targets (op tt, typed model) from rotating sources: "
+    "f64, f32, u64 or i64 for the bare literal, Vec<f64> / Vec<f32> for the array forms, BTreeMap<String, f64> for the object form (thorough: f64 from all three "
+    "sources, also Vec<Value> and BTreeMap<String, IgnoredAny>); a PANIC observation is a C14 verdict in all of them. Configuration fr (float_roundtrip and "
+    "nothing else; added to quick and thorough) runs the NUMBER families only - these shapes, c01::long_seq and c01::exp_edge - since the number conversion is "
+    "all the feature changes.")
